@@ -7,55 +7,55 @@ Local Open Scope Z_scope.
 
 Section Bounded.
   Variables lo hi : Z.
-  Hypothesis Hlo : nopos <= lo.
+  Hypothesis Hlo : nopos < lo.
   Hypothesis Hlh : lo <= hi.
 
   Definition okpos (x : Z) : Prop := x = nopos \/ (lo <= x /\ x <= hi).
   Definition inr (x : Z) : Prop := lo <= x /\ x <= hi.
   Definition okc (c : Z * Z) : Prop := inr (fst c) /\ inr (snd c).
 
+  (* a node has a position and an end within the bounds *)
+  Definition nodepos (i : ninfo) : Prop := n_isnode i = true -> inr (n_pos i) /\ inr (n_end i).
+
+  (* positions of nodes and tokens and of the comments attached to nodes lie within the bounds
+     (or are NoPos, unless they are those of a node); a list of nodes holds nodes only *)
   Fixpoint bounded (v : value) : Prop :=
     match v with
-    | VRef _ i e => okpos (n_pos i) /\ okpos (n_end i) /\ Forall (Forall okc) (n_cmts i) /\ bounded e
+    | VRef _ i e => okpos (n_pos i) /\ okpos (n_end i) /\ nodepos i /\ Forall (Forall okc) (n_cmts i) /\ bounded e
     | VPos p => okpos p
-    | VSlice _ _ cs | VStruct _ cs =>
+    | VSlice _ en cs =>
+        (fix all (l : list value) : Prop := match l with [] => True | c :: l' => bounded c /\ all l' end) cs
+        /\ (en = true -> forallb is_node cs = true)
+    | VStruct _ cs =>
         (fix all (l : list value) : Prop := match l with [] => True | c :: l' => bounded c /\ all l' end) cs
     | _ => True
     end.
 
   Fixpoint bounded_all (l : list value) : Prop := match l with [] => True | c :: l' => bounded c /\ bounded_all l' end.
 
-  Lemma bounded_slice t en cs : bounded (VSlice t en cs) = bounded_all cs.
+  Lemma bounded_slice t en cs : bounded (VSlice t en cs) = (bounded_all cs /\ (en = true -> forallb is_node cs = true)).
   Proof. reflexivity. Qed.
   Lemma bounded_struct t cs : bounded (VStruct t cs) = bounded_all cs.
   Proof. reflexivity. Qed.
 
-  Definition Inv (r : region) : Prop := okpos (fst r) /\ okpos (snd r).
+  (* the region a walk is charged with: when it starts at NoPos its end is NoPos or within the bounds *)
+  Definition Inv (r : region) : Prop := okpos (fst r) /\ snd r <= hi /\ (fst r = nopos -> okpos (snd r)).
   Definition Good (r : region) : Prop := fst r = nopos \/ snd r <= fst r \/ (lo <= fst r /\ snd r <= hi).
+
+  Lemma good_of r : okpos (fst r) -> snd r <= hi -> Good r.
+  Proof. intros [H|H] E; [left; exact H|right; right; lia]. Qed.
+
+  Lemma inv_good r : Inv r -> Good r.
+  Proof. intros [H [E _]]. apply good_of; assumption. Qed.
 
   Lemma okpos_le x : okpos x -> x <= hi.
   Proof. intros [->|H]; lia. Qed.
 
-  Lemma inv_good r : Inv r -> Good r.
-  Proof. intros [[H|H] E]; [left; exact H|right; right; apply okpos_le in E; lia]. Qed.
+  Lemma inr_okpos x : inr x -> okpos x.
+  Proof. intros H; right; exact H. Qed.
 
-  (* the end of an enclosing node: NoPos (unknown) or not below the bounds *)
-  Definition lowok (x : Z) : Prop := x = nopos \/ lo <= x.
-
-  Lemma end_of_ok nend r c : lowok nend -> okpos (snd r) -> okpos (vend c) -> okpos (end_of nend r c).
-  Proof.
-    intros Hn Hr Hc. unfold end_of.
-    assert (okpos (if (valid nend && (nend <? vend c))%bool then nend else vend c)) as H1.
-    { destruct (valid nend && (nend <? vend c))%bool eqn:E; [|exact Hc].
-      apply andb_true_iff in E as [E1 E2]. apply Z.ltb_lt in E2. unfold valid in E1.
-      apply negb_true_iff, Z.eqb_neq in E1. pose proof (okpos_le _ Hc).
-      destruct Hn as [Hn|Hn]; [contradiction|]. right. lia. }
-    destruct ((fst r <? snd r) && _)%bool; assumption.
-  Qed.
-
-  Lemma okpos_lowok x : okpos x -> lowok x.
-  Proof. intros [H|H]; [left; exact H|right; lia]. Qed.
-
+  Lemma inr_not_nopos x : inr x -> x <> nopos.
+  Proof. unfold inr. lia. Qed.
 
   Lemma okpos_vpos v : bounded v -> okpos (vpos v).
   Proof. destruct v; simpl; intros H; try (left; reflexivity). destruct H as [H _]. exact H. Qed.
@@ -63,8 +63,13 @@ Section Bounded.
   Lemma okpos_vend v : bounded v -> okpos (vend v).
   Proof. destruct v; simpl; intros H; try (left; reflexivity). destruct H as [_ [H _]]. exact H. Qed.
 
+  Lemma node_inr v : bounded v -> is_node v = true -> inr (vpos v) /\ inr (vend v).
+  Proof.
+    destruct v; simpl; intros H E; try discriminate. destruct H as [_ [_ [H _]]]. exact (H E).
+  Qed.
+
   Lemma bounded_cmts v : bounded v -> Forall (Forall okc) (n_cmts (info v)).
-  Proof. destruct v; simpl; intros H; try constructor. destruct H as [_ [_ [H _]]]. exact H. Qed.
+  Proof. destruct v; simpl; intros H; try constructor. destruct H as [_ [_ [_ [H _]]]]. exact H. Qed.
 
   Lemma comments_for_ok v : bounded v -> Forall okc (fst (comments_for v)) /\ Forall okc (snd (comments_for v)).
   Proof.
@@ -90,79 +95,161 @@ Section Bounded.
   Lemma max_ok a b : okpos a -> inr b -> okpos (Z.max a b).
   Proof. intros [->|Ha] Hb; right; unfold inr in *; lia. Qed.
 
-  (* ---- walkStruct ---- *)
-  Lemma max_ok2 a b : okpos a -> inr b -> okpos (Z.max a b).
-  Proof. apply max_ok. Qed.
+  Lemma max_inr a b : inr a -> inr b -> inr (Z.max a b).
+  Proof. unfold inr. lia. Qed.
 
   Lemma min_ok a b : okpos a -> inr b -> okpos (Z.min a b).
   Proof. intros [->|Ha] Hb; unfold inr in *; [left|right]; lia. Qed.
 
-  Lemma min_ok2 a b : okpos a -> okpos b -> okpos (Z.min a b).
-  Proof. intros [->|Ha] [->|Hb]; try (left; lia); right; lia. Qed.
+  Lemma min_inr a b : inr a -> inr b -> inr (Z.min a b).
+  Proof. unfold inr. lia. Qed.
+
+  (* the end of an enclosing node: NoPos (unknown) or not below the bounds *)
+  Definition lowok (x : Z) : Prop := x = nopos \/ lo <= x.
+
+  Lemma okpos_lowok x : okpos x -> lowok x.
+  Proof. intros [H|H]; [left; exact H|right; lia]. Qed.
+
+  (* endOf of a node *)
+  Lemma end_of_inr nend r c : lowok nend -> Inv r -> inr (vend c) -> inr (end_of nend r c).
+  Proof.
+    intros Hn [Hr1 [Hr2 Hr3]] Hc. unfold end_of.
+    assert (inr (if (valid nend && (nend <? vend c))%bool then nend else vend c)) as H1.
+    { destruct (valid nend && (nend <? vend c))%bool eqn:E; [|exact Hc].
+      apply andb_true_iff in E as [E1 E2]. apply Z.ltb_lt in E2. unfold valid in E1.
+      apply negb_true_iff, Z.eqb_neq in E1. destruct Hn as [Hn|Hn]; [contradiction|]. unfold inr in *. lia. }
+    set (e1 := if (valid nend && (nend <? vend c))%bool then nend else vend c) in *. clearbody e1.
+    destruct ((fst r <? snd r) && (snd r <? e1))%bool eqn:E; [|exact H1].
+    apply andb_true_iff in E as [E1 E2]. apply Z.ltb_lt in E1, E2.
+    destruct Hr1 as [Hr1|Hr1].
+    - destruct (Hr3 Hr1) as [E|E]; [lia|exact E].
+    - unfold inr in *. lia.
+  Qed.
+
+  (* ---- walkStruct ---- *)
+  Definition is_vpos (v : value) : Prop := match v with VPos _ => True | _ => False end.
+
+  (* field by field: the region it is walked with *)
+  Fixpoint finv (cs : list value) (ss es : list Z) : Prop :=
+    match cs, ss, es with
+    | c :: cs', s :: ss', e :: es' =>
+        (okpos s /\ e <= hi /\ (is_vpos c \/ (s = nopos -> okpos e))) /\ finv cs' ss' es'
+    | _, _, _ => True
+    end.
 
   Section Struct.
   Variable eo : value -> Z.
-  Hypothesis Heo : forall c, bounded c -> okpos (eo c).
+  Hypothesis Heo : forall c, bounded c -> is_node c = true -> inr (eo c).
 
-  Lemma starts_ok cs : forall le, bounded_all cs -> okpos le -> Forall okpos (starts_of eo cs le).
+  Lemma fields_ok cs : forall le fend, bounded_all cs -> okpos le -> fend <= hi -> (le = nopos -> okpos fend) ->
+    finv cs (starts_of eo cs le) (fst (ends_of eo cs (starts_of eo cs le) fend))
+    /\ snd (ends_of eo cs (starts_of eo cs le) fend) <= hi
+    /\ (le = nopos -> okpos (snd (ends_of eo cs (starts_of eo cs le) fend))).
   Proof.
-    induction cs as [|c cs IH]; intros le Hb Hle; cbn [starts_of]; [constructor|].
-    destruct Hb as [Hc Hcs].
-    destruct (is_node c).
-    - constructor; [apply okpos_vpos; exact Hc|]. apply IH; [exact Hcs|].
-      destruct (comments_for_ok c Hc) as [_ Ha].
-      destruct (snd (comments_for c)) as [|a aft] eqn:E; [apply Heo; exact Hc|].
-      apply max_ok; [apply Heo; exact Hc|].
-      assert (okc (last (a :: aft) (nopos, nopos))) as [_ H2] by (apply last_okc; [discriminate|exact Ha]). exact H2.
-    - destruct c; try (constructor; [exact Hle|apply IH; assumption]).
-      constructor; [|apply IH; assumption].
-      simpl in Hc. destruct (valid p); [exact Hc|left; reflexivity].
-  Qed.
-
-  Lemma ends_ok cs : forall ss fend, bounded_all cs -> Forall okpos ss -> okpos fend ->
-    Forall okpos (fst (ends_of eo cs ss fend)) /\ okpos (snd (ends_of eo cs ss fend)).
-  Proof.
-    induction cs as [|c cs IH]; intros ss fend Hb Hs Hf; cbn [ends_of]; [split; [constructor|exact Hf]|].
-    destruct ss as [|s ss']; [split; [constructor|exact Hf]|].
-    destruct Hb as [Hc Hcs]. inversion Hs as [|? ? Hs1 Hs2]; subst.
-    destruct (IH ss' fend Hcs Hs2 Hf) as [H1 H2].
-    destruct (ends_of eo cs ss' fend) as [es np]. cbn [fst snd] in *. split; [|exact Hs1].
-    constructor; [|exact H1]. destruct (is_node c); [apply Heo; exact Hc|exact H2].
+    induction cs as [|c cs IH]; intros le fend Hb Hle Hf Hlf; [cbn; auto|].
+    destruct Hb as [Hc Hcs]. cbn [starts_of].
+    destruct (is_node c) eqn:En.
+    - (* a node *)
+      destruct (node_inr c Hc En) as [Hp He]. pose proof (Heo c Hc En) as Hec.
+      set (le' := match snd (comments_for c) with [] => eo c | _ => Z.max (eo c) (snd (last (snd (comments_for c)) (nopos, nopos))) end).
+      assert (inr le') as Hle'.
+      { unfold le'. destruct (comments_for_ok c Hc) as [_ Ha].
+        destruct (snd (comments_for c)) as [|a aft] eqn:E; [exact Hec|].
+        apply max_inr; [exact Hec|].
+        assert (okc (last (a :: aft) (nopos, nopos))) as [_ H2] by (apply last_okc; [discriminate|exact Ha]). exact H2. }
+      destruct (IH le' fend Hcs (inr_okpos _ Hle') Hf ltac:(intros E; exfalso; exact (inr_not_nopos _ Hle' E))) as [I1 [I2 I3]].
+      cbn [ends_of]. destruct (ends_of eo cs (starts_of eo cs le') fend) as [es np] eqn:Ee. cbn [fst snd] in *.
+      rewrite En. cbn [finv]. repeat split.
+      + apply inr_okpos; exact Hp.
+      + destruct Hec; assumption.
+      + right. intros _. apply inr_okpos; exact Hec.
+      + exact I1.
+      + destruct Hp; assumption.
+      + intros _. apply inr_okpos; exact Hp.
+    - (* not a node *)
+      assert (forall s, okpos s -> (s = nopos -> is_vpos c \/ le = nopos) ->
+                finv (c :: cs) (s :: starts_of eo cs le) (fst (ends_of eo (c :: cs) (s :: starts_of eo cs le) fend))
+                /\ snd (ends_of eo (c :: cs) (s :: starts_of eo cs le) fend) <= hi
+                /\ (s = nopos \/ le <> nopos \/ True -> True)) as Hgen.
+      { intros s Hs Hsn.
+        destruct (IH le fend Hcs Hle Hf Hlf) as [I1 [I2 I3]].
+        cbn [ends_of]. destruct (ends_of eo cs (starts_of eo cs le) fend) as [es np] eqn:Ee. cbn [fst snd] in *.
+        rewrite En. cbn [finv]. repeat split; try assumption.
+        - destruct (Z.eq_dec s nopos) as [E|E].
+          + destruct (Hsn E) as [V|V]; [left; exact V|right; intros _; exact (I3 V)].
+          + right. intros E'. contradiction.
+        - apply okpos_le; exact Hs. }
+      assert (forall s, okpos s -> (s = nopos -> is_vpos c \/ le = nopos) -> (le = nopos -> okpos s) ->
+                finv (c :: cs) (s :: starts_of eo cs le) (fst (ends_of eo (c :: cs) (s :: starts_of eo cs le) fend))
+                /\ snd (ends_of eo (c :: cs) (s :: starts_of eo cs le) fend) <= hi
+                /\ (le = nopos -> okpos (snd (ends_of eo (c :: cs) (s :: starts_of eo cs le) fend)))) as Hgen2.
+      { intros s Hs Hsn Hls. destruct (Hgen s Hs Hsn) as [G1 [G2 _]]. split; [exact G1|]. split; [exact G2|].
+        cbn [ends_of]. destruct (ends_of eo cs (starts_of eo cs le) fend) as [es np]. cbn [snd]. exact Hls. }
+      destruct c as [t|p|t a|t i e|t en l|t l]; try (apply Hgen2; [exact Hle|intros E; right; exact E|intros _; exact Hle]).
+      + (* VPos *)
+        apply Hgen2.
+        * simpl in Hc. destruct (valid p); [exact Hc|left; reflexivity].
+        * intros _. left. exact I.
+        * intros _. simpl in Hc. destruct (valid p); [exact Hc|left; reflexivity].
   Qed.
   End Struct.
 
   (* ---- walkSlice ---- *)
-  Definition bounded_opt (o : option value) : Prop := match o with Some v => bounded v | None => True end.
+  Definition nodeb_opt (o : option value) : Prop := match o with Some v => bounded v /\ is_node v = true | None => True end.
 
   Lemma elem_region_inv r prev n next :
-    Inv r -> bounded_opt prev -> bounded n -> bounded_opt next -> Inv (elem_region r prev n next).
+    Inv r -> nodeb_opt prev -> bounded n -> is_node n = true -> nodeb_opt next -> Inv (elem_region r prev n next).
   Proof.
-    intros [Hp He] Hpv Hn Hnx. unfold elem_region.
-    destruct (comments_for_ok n Hn) as [Hb Ha].
+    intros [Hp [He H3]] Hpv Hn Hnn Hnx. unfold elem_region.
+    destruct (comments_for_ok n Hn) as [Hb Ha]. destruct (node_inr n Hn Hnn) as [Np Ne].
     set (p0 := match prev with None => fst r | Some pv => _ end).
     set (e0 := match next with None => snd r | Some nx => _ end).
-    assert (okpos p0) as Hp0.
-    { unfold p0. destruct prev as [pv|]; [|exact Hp]. simpl in Hpv.
-      destruct (snd (comments_for pv)); [apply min_ok2; [apply okpos_vend; exact Hpv|apply okpos_vpos; exact Hn]|apply okpos_vpos; exact Hn]. }
-    assert (okpos e0) as He0.
-    { unfold e0. destruct next as [nx|]; [|exact He]. simpl in Hnx.
-      destruct (comments_for_ok nx Hnx) as [Hbx _].
-      destruct (fst (comments_for nx)) as [|b0 bs]; [apply okpos_vpos; exact Hnx|].
-      apply min_ok; [apply okpos_vend; exact Hn|]. inversion Hbx as [|? ? [Hb1 _] _]; subst. exact Hb1. }
+    assert (okpos p0 /\ (p0 = nopos -> prev = None /\ fst r = nopos)) as [Hp0 Hp0n].
+    { unfold p0. destruct prev as [pv|]; [|split; [exact Hp|intros E; split; [reflexivity|exact E]]].
+      destruct Hpv as [Hpv Hpn]. destruct (node_inr pv Hpv Hpn) as [_ Pe].
+      destruct (snd (comments_for pv)).
+      - pose proof (min_inr _ _ Pe Np) as M. split; [apply inr_okpos; exact M|intros E; exfalso; exact (inr_not_nopos _ M E)].
+      - split; [apply inr_okpos; exact Np|intros E; exfalso; exact (inr_not_nopos _ Np E)]. }
+    assert (e0 <= hi /\ (next <> None \/ fst r = nopos -> okpos e0)) as [He0 He0n].
+    { unfold e0. destruct next as [nx|].
+      - destruct Hnx as [Hnx Hnn']. destruct (node_inr nx Hnx Hnn') as [Xp _].
+        destruct (comments_for_ok nx Hnx) as [Hbx _].
+        destruct (fst (comments_for nx)) as [|b0 bs].
+        + split; [destruct Xp; assumption|intros _; apply inr_okpos; exact Xp].
+        + inversion Hbx as [|? ? [Hb1 _] _]; subst. pose proof (min_inr _ _ Ne Hb1) as M.
+          split; [destruct M; assumption|intros _; apply inr_okpos; exact M].
+      - split; [exact He|]. intros [E|E]; [contradiction|exact (H3 E)]. }
     clearbody p0 e0.
-    destruct (comments_for n) as [bef aft]. cbn [fst snd] in *. split; cbn [fst snd].
+    destruct (comments_for n) as [bef aft]. cbn [fst snd] in *.
+    assert (forall e, e = match aft with [] => e0 | c :: _ => Z.min e0 (fst c) end -> e <= hi /\ (okpos e0 -> okpos e)) as Hend.
+    { intros e ->. destruct aft as [|a aft']; [split; [exact He0|auto]|].
+      inversion Ha as [|? ? [Ha1 _] _]; subst. split; [lia|intros O; apply min_ok; assumption]. }
+    destruct (Hend _ eq_refl) as [E1 E2].
+    split; cbn [fst snd]; [|split; [exact E1|]].
     - destruct bef as [|b bef']; [exact Hp0|]. apply max_ok; [exact Hp0|].
       assert (okc (last (b :: bef') (nopos, nopos))) as [_ H2] by (apply last_okc; [discriminate|exact Hb]). exact H2.
-    - destruct aft as [|a aft']; [exact He0|]. apply min_ok; [exact He0|]. inversion Ha as [|? ? [Ha1 _] _]; subst. exact Ha1.
+    - intros Ep. apply E2. apply He0n. right.
+      destruct bef as [|b bef'].
+      + destruct (Hp0n Ep) as [_ F]. exact F.
+      + exfalso. assert (okc (last (b :: bef') (nopos, nopos))) as [_ H2] by (apply last_okc; [discriminate|exact Hb]).
+        unfold inr in H2. destruct Hp0 as [Q|Q]; lia.
   Qed.
 
-  Lemma elem_regions_inv cs : forall r prev, Inv r -> bounded_opt prev -> bounded_all cs ->
+  Fixpoint nodes_all (l : list value) : Prop := match l with [] => True | c :: l' => (bounded c /\ is_node c = true) /\ nodes_all l' end.
+
+  Lemma nodes_all_of cs : bounded_all cs -> forallb is_node cs = true -> nodes_all cs.
+  Proof.
+    induction cs as [|c cs IH]; intros Hb Hn; [exact I|]. destruct Hb as [Hc Hcs]. cbn [forallb] in Hn.
+    apply andb_true_iff in Hn as [N1 N2]. split; [split; assumption|apply IH; assumption].
+  Qed.
+
+  Lemma elem_regions_inv cs : forall r prev, Inv r -> nodeb_opt prev -> nodes_all cs ->
     Forall Inv (elem_regions r prev cs).
   Proof.
     induction cs as [|n cs IH]; intros r prev Hr Hp Hb; cbn [elem_regions]; [constructor|].
-    destruct Hb as [Hn Hcs]. constructor.
+    destruct Hb as [[Hn Hnn] Hcs]. constructor.
     - apply elem_region_inv; try assumption. destruct cs as [|nx cs']; [exact I|]. destruct Hcs as [H _]. exact H.
-    - apply IH; [exact Hr|exact Hn|exact Hcs].
+    - apply IH; [exact Hr|split; assumption|exact Hcs].
   Qed.
 
   Variable script : list value -> list value -> list edit.
@@ -172,6 +259,16 @@ Section Bounded.
 
   Lemma good_single r : Inv r -> Forall Good [r].
   Proof. intros H. constructor; [apply inv_good; exact H|constructor]. Qed.
+
+  (* the walk of a position field reports its region or nothing *)
+  Lemma walk_vpos k nend r p to w : walk script k nend r (VPos p) to = Some w -> w_log w = [] \/ w_log w = [r].
+  Proof.
+    destruct k as [|k]; [discriminate|]. cbn [walk]. intros H.
+    destruct (negb (N.eqb (vtype (VPos p)) (vtype to))); [inversion H; subst; right; reflexivity|].
+    destruct (N.eqb (vtype (VPos p)) T_object || N.eqb (vtype (VPos p)) T_cgroup)%bool; [inversion H; subst; left; reflexivity|].
+    destruct to; try (inversion H; subst; right; reflexivity).
+    destruct (Bool.eqb (valid p) (valid p0)); inversion H; subst; [left|right]; reflexivity.
+  Qed.
 
   Lemma walk_bounded_n : forall k, walk_ok k.
   Proof.
@@ -190,22 +287,24 @@ Section Bounded.
     - (* VRef *)
       destruct to as [tt|pt|tt at_|tt it et|tt ent ys|tt ys]; try (inversion H; subst; apply good_single; exact Hr).
       match type of H with context [walk script k ?ne r ef et] => destruct (walk script k ne r ef et) as [w'|] eqn:E; [|discriminate]; inversion H; subst; cbn [w_log];
-        assert (lowok ne) as Hne' by (destruct (n_isnode (info (VRef tf inf ef))); [apply okpos_lowok, end_of_ok; [exact Hne|apply Hr|apply okpos_vend; exact Hb]|exact Hne]);
-        simpl in Hb; destruct Hb as [_ [_ [_ Hb]]]; exact (IH ne r ef et w' Hb Hr Hne' E) end.
+        assert (lowok ne) as Hne' by (cbn [info]; destruct (n_isnode inf) eqn:En;
+           [apply okpos_lowok, inr_okpos, end_of_inr; [exact Hne|exact Hr|apply (node_inr (VRef tf inf ef) Hb En)]|exact Hne]);
+        simpl in Hb; destruct Hb as [_ [_ [_ [_ Hb]]]]; exact (IH ne r ef et w' Hb Hr Hne' E) end.
     - (* VSlice *)
       destruct to as [tt|pt|tt at_|tt it et|tt ent ys|tt ys];
         try (destruct enf; inversion H; subst; apply good_single; exact Hr).
-      rewrite bounded_slice in Hb.
+      rewrite bounded_slice in Hb. destruct Hb as [Hb Hnodes].
       destruct enf.
       + (* node slice *)
-        pose proof (elem_regions_inv xs r None Hr I Hb) as Hregs.
+        pose proof (nodes_all_of xs Hb (Hnodes eq_refl)) as Hna.
+        pose proof (elem_regions_inv xs r None Hr I Hna) as Hregs.
         set (regs := elem_regions r None xs) in *. clearbody regs.
         set (es := script xs ys) in *. clearbody es.
         match type of H with context [ (fix go (es : list edit) (xs ys : list value) (regs : list region) {struct es} := _) es xs ys regs ] =>
           set (go := (fix go (es : list edit) (xs ys : list value) (regs : list region) {struct es} : option (bool * list value * list region) := _)) in H end.
         assert (forall es xs ys regs eq tos lg, bounded_all xs -> Forall Inv regs ->
                   go es xs ys regs = Some (eq, tos, lg) -> Forall Good lg) as Hgo.
-        { clear H Hb Hregs xs ys regs es. induction es as [|e es IHes]; intros xs ys regs eq tos lg Hbx Hrg Hg.
+        { clear H Hb Hregs Hna Hnodes xs ys regs es. induction es as [|e es IHes]; intros xs ys regs eq tos lg Hbx Hrg Hg.
           - simpl in Hg. inversion Hg; subst. constructor.
           - destruct e; simpl in Hg.
             + destruct xs as [|x xs']; [discriminate|]. destruct ys as [|y ys']; [discriminate|]. destruct regs as [|rg regs']; [discriminate|].
@@ -230,7 +329,7 @@ Section Bounded.
         match type of H with context [ (fix go (xs ys : list value) {struct xs} := _) xs ys ] =>
           set (go := (fix go (xs ys : list value) {struct xs} : option (bool * list value * list region) := _)) in H end.
         assert (forall xs ys eq tos lg, bounded_all xs -> go xs ys = Some (eq, tos, lg) -> Forall Good lg) as Hgo.
-        { clear H Hb xs ys. induction xs as [|x xs IHxs]; intros ys eq tos lg Hbx Hg.
+        { clear H Hb Hnodes xs ys. induction xs as [|x xs IHxs]; intros ys eq tos lg Hbx Hg.
           - simpl in Hg. inversion Hg; subst. constructor.
           - destruct ys as [|y ys']; simpl in Hg; [inversion Hg; subst; constructor|].
             destruct (walk script k nend r x y) as [w'|] eqn:Ew; [|discriminate].
@@ -240,29 +339,31 @@ Section Bounded.
         eapply Hgo; eauto.
     - (* VStruct *)
       destruct to as [tt|pt|tt at_|tt it et|tt ent ys|tt ys]; try (inversion H; subst; apply good_single; exact Hr).
-      rewrite bounded_struct in Hb. destruct Hr as [Hr1 Hr2].
-      assert (forall c0, bounded c0 -> okpos (end_of nend r c0)) as Heo
-        by (intros c0 Hc0; apply end_of_ok; [exact Hne|exact Hr2|apply okpos_vend; exact Hc0]).
-      pose proof (starts_ok (end_of nend r) Heo xs (fst r) Hb Hr1) as Hss.
-      pose proof (ends_ok (end_of nend r) Heo xs (starts_of (end_of nend r) xs (fst r)) (snd r) Hb Hss Hr2) as [Hes _].
-      revert H Hss Hes. generalize (starts_of (end_of nend r) xs (fst r)) as ss. intros ss.
-      generalize (fst (ends_of (end_of nend r) xs ss (snd r))) as es. intros es H Hss Hes.
+      rewrite bounded_struct in Hb. pose proof Hr as [Hr1 [Hr2 Hr3]].
+      assert (forall c0, bounded c0 -> is_node c0 = true -> inr (end_of nend r c0)) as Heo
+        by (intros c0 Hc0 Hn0; apply end_of_inr; [exact Hne|exact Hr|apply (node_inr c0 Hc0 Hn0)]).
+      pose proof (fields_ok (end_of nend r) Heo xs (fst r) (snd r) Hb Hr1 Hr2 Hr3) as [Hfi _].
+      revert H Hfi. generalize (starts_of (end_of nend r) xs (fst r)) as ss. intros ss.
+      generalize (fst (ends_of (end_of nend r) xs ss (snd r))) as es. intros es H Hfi.
       match type of H with context [ (fix go (xs ys : list value) (ss es : list Z) {struct xs} := _) xs ys ss es ] =>
         set (go := (fix go (xs ys : list value) (ss es : list Z) {struct xs} : option (bool * list value * list region) := _)) in H end.
-      assert (forall xs ys ss es eq tos lg, bounded_all xs -> Forall okpos ss -> Forall okpos es ->
+      assert (forall xs ys ss es eq tos lg, bounded_all xs -> finv xs ss es ->
                 go xs ys ss es = Some (eq, tos, lg) -> Forall Good lg) as Hgo.
-      { clear H Hb Hss Hes xs ys ss es. induction xs as [|x xs IHxs]; intros ys ss es eq tos lg Hbx Hs He Hg.
+      { clear H Hb Hfi xs ys ss es. induction xs as [|x xs IHxs]; intros ys ss es eq tos lg Hbx Hfi Hg.
         - simpl in Hg. inversion Hg; subst. constructor.
         - destruct ys as [|y ys']; simpl in Hg; [inversion Hg; subst; constructor|].
           destruct ss as [|s ss']; [inversion Hg; subst; constructor|].
           destruct es as [|e es']; [inversion Hg; subst; constructor|].
           destruct (walk script k nend (s, e) x y) as [w'|] eqn:Ew; [|discriminate].
           destruct (go xs ys' ss' es') as [[[eq' tos'] lg']|] eqn:E; [|discriminate]. inversion Hg; subst.
-          destruct Hbx as [Hx Hbx]. inversion Hs as [|? ? H1 H2]; subst. inversion He as [|? ? H3 H4]; subst.
-          apply Forall_app. split; [|exact (IHxs ys' ss' es' eq' tos' lg' Hbx H2 H4 E)].
-          apply (IH nend (s, e) x y w' Hx); [split; assumption|exact Hne|exact Ew]. }
+          destruct Hbx as [Hx Hbx]. cbn [finv] in Hfi. destruct Hfi as [[F1 [F2 F3]] Hfi].
+          apply Forall_app. split; [|exact (IHxs ys' ss' es' eq' tos' lg' Hbx Hfi E)].
+          destruct F3 as [F3|F3].
+          + destruct x; try contradiction. destruct (walk_vpos _ _ _ _ _ _ Ew) as [L|L]; rewrite L; [constructor|].
+            constructor; [apply good_of; assumption|constructor].
+          + apply (IH nend (s, e) x y w' Hx); [split; [exact F1|split; [exact F2|exact F3]]|exact Hne|exact Ew]. }
       destruct (go xs ys ss es) as [[[eq tos] lg]|] eqn:E; [|discriminate]. inversion H; subst. cbn [w_log].
-      exact (Hgo xs ys ss es eq tos lg Hb Hss Hes E).
+      exact (Hgo xs ys ss es eq tos lg Hb Hfi E).
   Qed.
 
   Theorem walk_bounded k nend r from to w :
@@ -273,7 +374,7 @@ Section Bounded.
      outside its extent) play no part: they are looked at by the walk of the list it is in *)
   Fixpoint bounded_root (v : value) : Prop :=
     match v with
-    | VRef _ i e => okpos (n_pos i) /\ okpos (n_end i) /\ bounded_root e
+    | VRef _ i e => okpos (n_pos i) /\ okpos (n_end i) /\ nodepos i /\ bounded_root e
     | _ => bounded v
     end.
 
@@ -288,8 +389,9 @@ Section Bounded.
     destruct (N.eqb (vtype (VRef tf inf ef)) T_object || N.eqb (vtype (VRef tf inf ef)) T_cgroup)%bool; [inversion H; subst; constructor|].
     destruct to as [tt|pt|tt at_|tt it et|tt ent ys|tt ys]; try (inversion H; subst; apply good_single; exact Hr).
     match type of H with context [walk script k ?ne r ef et] => destruct (walk script k ne r ef et) as [w'|] eqn:E; [|discriminate]; inversion H; subst; cbn [w_log];
-      assert (lowok ne) as Hne' by (destruct (n_isnode (info (VRef tf inf ef))); [apply okpos_lowok, end_of_ok; [exact Hne|apply Hr|simpl; apply Hb]|exact Hne]);
-      simpl in Hb; destruct Hb as [_ [_ Hb]]; exact (IH ne r ef et w' Hb Hr Hne' E) end.
+      assert (lowok ne) as Hne' by (cbn [info]; destruct (n_isnode inf) eqn:En;
+         [apply okpos_lowok, inr_okpos, end_of_inr; [exact Hne|exact Hr|simpl in Hb; destruct Hb as [_ [_ [Hb _]]]; exact (proj2 (Hb En))]|exact Hne]);
+      simpl in Hb; destruct Hb as [_ [_ [_ Hb]]]; exact (IH ne r ef et w' Hb Hr Hne' E) end.
   Qed.
 End Bounded.
 
@@ -324,8 +426,8 @@ Section Slice.
   Definition Excl (nend : Z) (x : value) (rg : region) : Prop :=
     let lo := Z.min (fst rg) (vpos x) in
     let hi := Z.max (snd rg) (vend x) in
-    nopos <= lo /\ lo <= hi /\ bounded_root lo hi x /\ okpos lo hi (fst rg) /\ (snd c <= lo \/ hi <= fst c) /\
-    okpos lo hi (snd rg) /\ lowok lo nend.
+    nopos < lo /\ lo <= hi /\ bounded_root lo hi x /\ okpos lo hi (fst rg) /\ (snd c <= lo \/ hi <= fst c) /\
+    lowok lo nend.
 
   Lemma good_not_inside lo hi r : Good lo hi r -> (snd c <= lo \/ hi <= fst c) -> not_inside r.
   Proof.
@@ -383,16 +485,17 @@ Section Slice.
           destruct (go es xs' ys' regs') as [[[eq' tos'] lg']|] eqn:E; [|discriminate]. inversion Hg; subst. eapply IHes; eauto.
         + destruct xs as [|x xs']; [discriminate|]. destruct regs as [|rg regs']; [discriminate|].
           destruct (go es xs' ys regs') as [[[eq' tos'] lg']|] eqn:E; [|discriminate]. inversion Hg; subst.
-          destruct Hp as [[Hlo [Hlh [Hb [Hok [Hx [Hok2 Hlow]]]]]] Hp]. constructor; [|eapply IHes; eauto].
-          eapply good_not_inside; [|exact Hx]. unfold Good. destruct Hok as [E0|E0]; [left; exact E0|]. right. right. destruct Hok2 as [E2|E2]; lia.
+          destruct Hp as [[Hlo [Hlh [Hb [Hok [Hx Hlow]]]]] Hp]. constructor; [|eapply IHes; eauto].
+          eapply good_not_inside; [|exact Hx]. unfold Good. destruct Hok as [E0|E0]; [left; exact E0|]. right. right. lia.
         + destruct ys as [|y ys']; [discriminate|].
           destruct (go es xs ys' regs) as [[[eq' tos'] lg']|] eqn:E; [|discriminate]. inversion Hg; subst. eapply IHes; eauto.
         + destruct xs as [|x xs']; [discriminate|]. destruct ys as [|y ys']; [discriminate|]. destruct regs as [|rg regs']; [discriminate|].
           destruct (walk script k nend rg x y) as [w'|] eqn:Ew; [|discriminate].
           destruct (go es xs' ys' regs') as [[[eq' tos'] lg']|] eqn:E; [|discriminate]. inversion Hg; subst.
-          destruct Hp as [[Hlo [Hlh [Hb [Hok [Hx [Hok2 Hlow]]]]]] Hp]. apply Forall_app. split; [|eapply IHes; eauto].
+          destruct Hp as [[Hlo [Hlh [Hb [Hok [Hx Hlow]]]]] Hp]. apply Forall_app. split; [|eapply IHes; eauto].
           assert (Forall (Good (Z.min (fst rg) (vpos x)) (Z.max (snd rg) (vend x))) (w_log w')) as HG.
-          { eapply walk_bounded_root; [exact Hlo|exact Hlh|exact Hb| |exact Hlow|exact Ew]. split; [exact Hok|exact Hok2]. }
+          { eapply walk_bounded_root; [exact Hlo|exact Hlh|exact Hb| |exact Hlow|exact Ew].
+            split; [exact Hok|]. cbn [fst snd]. split; [lia|]. intros E0. exfalso. lia. }
           eapply Forall_impl; [|exact HG]. intros a Ha. eapply good_not_inside; [exact Ha|exact Hx]. }
     destruct (go es xs ys regs) as [[[eq tos] lg]|] eqn:E; [|discriminate]. inversion H; subst. cbn [w_log].
     eapply Hgo; eauto.
@@ -449,16 +552,21 @@ Proof. intros H1 H2 [->|H]; [left; reflexivity|right; lia]. Qed.
 Lemma okc_mono lo hi lo' hi' x : lo' <= lo -> hi <= hi' -> okc lo hi x -> okc lo' hi' x.
 Proof. unfold okc, inr. intros H1 H2 H. lia. Qed.
 
+Lemma nodepos_mono lo hi lo' hi' i : lo' <= lo -> hi <= hi' -> nodepos lo hi i -> nodepos lo' hi' i.
+Proof. unfold nodepos, inr. intros H1 H2 H E. specialize (H E). lia. Qed.
+
 Lemma bounded_mono lo hi lo' hi' : lo' <= lo -> hi <= hi' -> forall v, bounded lo hi v -> bounded lo' hi' v.
 Proof.
   intros H1 H2. fix IH 1. intros v. destruct v as [t|p|t a|t i e|t en cs|t cs]; cbn [bounded]; intros H.
   - exact I.
   - eapply okpos_mono; eauto.
   - exact I.
-  - destruct H as [A [B [C D]]]. repeat split; try (eapply okpos_mono; eauto).
-    + eapply Forall_impl; [|exact C]. intros g Hg. eapply Forall_impl; [|exact Hg]. intros x. apply okc_mono; assumption.
-    + apply IH; exact D.
-  - induction cs as [|c0 cs IHcs]; [exact I|]. destruct H as [A B]. split; [apply IH; exact A|apply IHcs; exact B].
+  - destruct H as [A [B [C [D E]]]]. split; [eapply okpos_mono; eauto|]. split; [eapply okpos_mono; eauto|].
+    split; [eapply nodepos_mono; eauto|]. split.
+    + eapply Forall_impl; [|exact D]. intros g Hg. eapply Forall_impl; [|exact Hg]. intros x. apply okc_mono; assumption.
+    + apply IH; exact E.
+  - destruct H as [H Hn]. split; [|exact Hn]. clear Hn.
+    induction cs as [|c0 cs IHcs]; [exact I|]. destruct H as [A B]. split; [apply IH; exact A|apply IHcs; exact B].
   - induction cs as [|c0 cs IHcs]; [exact I|]. destruct H as [A B]. split; [apply IH; exact A|apply IHcs; exact B].
 Qed.
 
@@ -466,7 +574,8 @@ Lemma bounded_root_mono lo hi lo' hi' : lo' <= lo -> hi <= hi' -> forall v, boun
 Proof.
   intros H1 H2. induction v as [t|p|t a|t i e IH|t en cs|t cs]; cbn [bounded_root]; intros H;
     try (eapply bounded_mono; [exact H1|exact H2|exact H]).
-  destruct H as [A [B C]]. repeat split; try (eapply okpos_mono; eauto). apply IH; exact C.
+  destruct H as [A [B [C D]]]. split; [eapply okpos_mono; eauto|]. split; [eapply okpos_mono; eauto|].
+  split; [eapply nodepos_mono; eauto|]. apply IH; exact D.
 Qed.
 
 (* ---- the region of a list element ---- *)
@@ -535,30 +644,26 @@ Section Identity.
     Forall node_ok xs -> ordered xs ->
     (forall i x e, nth_error xs i = Some x -> nth_error (xedits (script xs ys)) i = Some e -> e <> Identity ->
                    bounded_root (vpos x) (vend x) x) ->
-    nopos <= fst r -> (forall x0, nth_error xs 0 = Some x0 -> fst r <= vpos x0) ->
-    (* the enclosing node, when its end is known, does not end before an element starts; the region of
-       an element that changed does not end before both its own start and the element's *)
+    nopos < fst r -> (forall x0, nth_error xs 0 = Some x0 -> fst r <= vpos x0) ->
+    (* the enclosing node, when its end is known, does not end before an element starts *)
     (nend = nopos \/ forall x, In x xs -> vpos x <= nend) ->
-    (forall i x e rg, nth_error xs i = Some x -> nth_error (xedits (script xs ys)) i = Some e -> e <> Identity ->
-                      nth_error (elem_regions r None xs) i = Some rg -> snd rg = nopos \/ Z.min (fst rg) (vpos x) <= snd rg) ->
     (* element j is paired as identical, and the comment belongs to it *)
     nth_error xs j = Some xj -> nth_error (xedits (script xs ys)) j = Some Identity ->
     fst c < snd c -> attached xs j xj c ->
     Forall (not_inside c) (w_log w).
   Proof.
-    intros H Et Eo Ec Hn Ho Hb Hr0 Hr1 Hnend Hregs Hj HI Hc Hat.
+    intros H Et Eo Ec Hn Ho Hb Hr0 Hr1 Hnend Hj HI Hc Hat.
     eapply slice_log_not_inside; eauto.
     apply (posok_from c nend (script xs ys) xs (elem_regions r None xs)).
     intros i x rg e Hx Hrg He Hnid. assert (i <> j) as Hne by (intros ->; rewrite HI in He; inversion He; subst; apply Hnid; reflexivity).
-    pose proof (Hregs i x e rg Hx He Hnid Hrg) as Hrg2.
     assert (nend = nopos \/ vpos x <= nend) as Hnendx by (destruct Hnend as [E0|E0]; [left; exact E0|right; apply E0; eapply nth_error_In; exact Hx]).
-    clear Hregs Hnend. revert Hrg2.
-    assert (rg = elem_region r (prev_of None xs i) x (nth_error xs (S i))) as -> by (rewrite (nth_elem_regions r xs None i x Hx) in Hrg; congruence). clear Hrg. intros Hrg2.
+    clear Hnend.
+    assert (rg = elem_region r (prev_of None xs i) x (nth_error xs (S i))) as -> by (rewrite (nth_elem_regions r xs None i x Hx) in Hrg; congruence). clear Hrg.
     set (prev := prev_of None xs i) in *. set (next := nth_error xs (S i)) in *.
     pose proof (nth_node_ok _ _ _ Hn Hx) as [Nx1 Nx2].
     pose proof (nth_node_ok _ _ _ Hn Hj) as [Nj1 Nj2].
     (* p0 <= vpos x, nopos <= p0 *)
-    assert (p0_of r prev x <= vpos x /\ nopos <= p0_of r prev x) as [Hp0 Hp0n].
+    assert (p0_of r prev x <= vpos x /\ nopos < p0_of r prev x) as [Hp0 Hp0n].
     { unfold p0_of, prev, prev_of. destruct i as [|i'].
       - split; [apply Hr1; exact Hx|exact Hr0].
       - destruct (nth_error xs i') as [pv|] eqn:Epv; [|split; [apply Hr1|exact Hr0]].
@@ -632,7 +737,6 @@ Section Identity.
                 apply nth_error_Some in H0. lia.
             + pose proof (ord_lt xs j i' xj pv Ho Hn ltac:(lia) Hj Epv). lia. }
         lia.
-    - destruct Hrg2 as [E0|E0]; [left; exact E0|right; lia].
     - unfold lowok. destruct Hnendx as [E0|E0]; [left; exact E0|right; lia].
   Qed.
 End Identity.
@@ -677,17 +781,28 @@ Proof.
   repeat match goal with H : (_ <=? _) = true |- _ => apply Z.leb_le in H end. lia.
 Qed.
 
+Lemma nodeposb_sound lo hi i : nodeposb lo hi i = true -> nodepos lo hi i.
+Proof.
+  unfold nodeposb, nodepos, inrb, inr. intros H E. rewrite E in H. cbn [negb orb] in H.
+  repeat (apply andb_true_iff in H as [H ?]).
+  repeat match goal with H : (_ <=? _) = true |- _ => apply Z.leb_le in H end. lia.
+Qed.
+
 Lemma boundedb_sound lo hi : forall v, boundedb lo hi v = true -> bounded lo hi v.
 Proof.
   fix IH 1. intros v. destruct v as [t|p|t a|t i e|t en cs|t cs]; cbn [boundedb bounded]; intros H.
   - exact I.
   - apply okposb_sound; exact H.
   - exact I.
-  - repeat (apply andb_true_iff in H as [H ?]). repeat split; try (apply okposb_sound; assumption).
+  - repeat (apply andb_true_iff in H as [H ?]).
+    split; [apply okposb_sound; assumption|]. split; [apply okposb_sound; assumption|].
+    split; [apply nodeposb_sound; assumption|]. split.
     + apply Forall_forall. intros g Hg. apply Forall_forall. intros c Hc.
       match goal with H : forallb _ (n_cmts i) = true |- _ => rewrite forallb_forall in H; specialize (H g Hg); rewrite forallb_forall in H; apply okcb_sound, H, Hc end.
     + apply IH; assumption.
-  - induction cs as [|c0 cs IHcs]; [exact I|]. apply andb_true_iff in H as [A B]. split; [apply IH; exact A|apply IHcs; exact B].
+  - apply andb_true_iff in H as [H Hn]. split.
+    + clear Hn. induction cs as [|c0 cs IHcs]; [exact I|]. apply andb_true_iff in H as [A B]. split; [apply IH; exact A|apply IHcs; exact B].
+    + intros ->. cbn [negb orb] in Hn. exact Hn.
   - induction cs as [|c0 cs IHcs]; [exact I|]. apply andb_true_iff in H as [A B]. split; [apply IH; exact A|apply IHcs; exact B].
 Qed.
 
@@ -695,7 +810,9 @@ Lemma bounded_rootb_sound lo hi : forall v, bounded_rootb lo hi v = true -> boun
 Proof.
   induction v as [t|p|t a|t i e IH|t en cs|t cs]; cbn [bounded_rootb bounded_root]; intros H;
     try (apply boundedb_sound; exact H).
-  repeat (apply andb_true_iff in H as [H ?]). repeat split; try (apply okposb_sound; assumption). apply IH; assumption.
+  repeat (apply andb_true_iff in H as [H ?]).
+  split; [apply okposb_sound; assumption|]. split; [apply okposb_sound; assumption|].
+  split; [apply nodeposb_sound; assumption|]. apply IH; assumption.
 Qed.
 
 Lemma node_okb_sound x : node_okb x = true -> node_ok x.
@@ -745,7 +862,7 @@ Theorem identity_element_keeps_its_comments_b script k nend r t xs t' en ys w j 
   Forall (not_inside c) (w_log w).
 Proof.
   intros H Et Eo Ec Hl Hj HI Hc Ha. unfold list_okb in Hl.
-  apply andb_true_iff in Hl as [Hl Hregs]. apply andb_true_iff in Hl as [Hl Hnend].
+  apply andb_true_iff in Hl as [Hl Hnend].
   repeat (apply andb_true_iff in Hl as [Hl ?]).
   eapply identity_element_keeps_its_comments; eauto.
   - apply Forall_forall. intros x Hx. apply node_okb_sound. rewrite forallb_forall in Hl. auto.
@@ -754,16 +871,11 @@ Proof.
     match goal with H : forallb _ (combine xs _) = true |- _ => rewrite forallb_forall in H;
       specialize (H (x, e) (nth_error_In _ _ (nth_error_combine _ _ _ _ _ Hx He))); cbn [fst snd] in H end.
     destruct e; try (exfalso; apply Hnid; reflexivity); cbn [is_identity orb] in *; assumption.
-  - match goal with H : (nopos <=? fst r) = true |- _ => apply Z.leb_le in H; exact H end.
+  - match goal with H : (nopos <? fst r) = true |- _ => apply Z.ltb_lt in H; exact H end.
   - intros x0 E. destruct xs as [|a xs']; [discriminate|]. simpl in E. inversion E; subst.
     match goal with H : (fst r <=? vpos x0) = true |- _ => apply Z.leb_le in H; exact H end.
   - apply orb_true_iff in Hnend as [E|E]; [left; apply Z.eqb_eq; exact E|right].
     intros x Hx. rewrite forallb_forall in E. apply Z.leb_le, E, Hx.
-  - intros i x e rg Hx He Hnid Hrg. rewrite forallb_forall in Hregs.
-    specialize (Hregs (x, e, rg) (nth_error_In _ _ (nth_error_combine _ _ _ _ _ (nth_error_combine _ _ _ _ _ Hx He) Hrg))).
-    cbv beta iota in Hregs.
-    destruct e; try (exfalso; apply Hnid; reflexivity); cbn [is_identity orb] in Hregs;
-      (apply orb_true_iff in Hregs as [E|E]; [left; apply Z.eqb_eq; exact E|right; apply Z.leb_le; exact E]).
   - apply attachedb_sound; exact Ha.
 Qed.
 
